@@ -124,4 +124,20 @@ def execStub (cs : CState) : StubCmd → CState × StubReply
     | (c, none) => (c, .noSuchKey)
   | .const _ => (cs, .unspecified)
 
+/-! ## `execute_readonly(&self, cmd)` (mod.rs): the read path that takes no `&mut` -/
+
+/-- GET / EXISTS / KEYS on an IMMUTABLE executor: `is_expired` is consulted, nothing is dropped;
+    `none` = "ERR command not supported in readonly mode" (every other command; PING is a `const`) -/
+def cReadonly (cs : CState) : Cmd → Option Reply
+  | .get k =>
+    if isExpired cs k then some .nil
+    else
+      match NMap.get cs.data k with
+      | some (.str b) => some (.bulk b)
+      | some _ => some wrongType
+      | none => some .nil
+  | .exists ks => some (.int (ks.filter (liveKey cs)).length)
+  | .keys => some (cKeys cs).2
+  | _ => none
+
 end RedisVerif.Executor
